@@ -2,7 +2,7 @@
 
 ENGINES = [
     {'name': 'explorer', 'path': 'mc/explorer.py',
-     'serves_properties': ['C20'],
+     'serves_properties': ['C19', 'C20'],
      'kind_free_text': 'explicit-state BFS over operation histories of the real object (rebuild + replay), '
                        'canonical-state de-duplication, deviation-level product enumeration'},
 ]
@@ -24,5 +24,18 @@ CHECKS = {
         note='Reference model written in /verif; windows longer than the file and seeks past an unknown end are '
              'outside the property and excluded; time.time in the module is replaced by a counter.'),
 }
+
+CHECKS['C19'] = dict(
+    engine='explorer',
+    technique='bounded-exhaustive enumeration of value alphabets vs exact ISO-8601 reference parsers',
+    design_ref='DESIGN.md §7 C19',
+    text='Every microsecond fraction (thorough: all 10^6; quick: all rounding-boundary residues and all >= .999) '
+         'x 9 whole-second parts x 3 input forms is rendered by toIsoDuration and judged by an independent exact '
+         'xs:duration parser (lexical form, field ranges, value within 0.5 ms) and by the repository parser; '
+         'date-times over 105 UTC offsets x 6 dates x boundary microseconds (+ every microsecond of a second at '
+         '2/6 offsets); tick conversions over 20 timescales x 5010 timecodes in both directions against Fraction '
+         'arithmetic. The spaces are finite and enumerated completely.',
+    note='Exactness oracle = mc/iso8601.py + fractions.Fraction; tolerance 0.5 ms + 1 ns for float noise; '
+         'timescales > 10^6 cannot round-trip through timedelta (known finding).')
 
 NOT_BUILT = {}
